@@ -9,7 +9,7 @@ from .. import lockrules as LR
 from ..locks import LockAnalysis, obj_key
 from ..build import AnalysisBroken
 from ..channelrules import (CHANNEL_FIELDS, channel_functions, rule_empty_drained,
-                            rule_dimensions, rule_registration, rule_cursor_pair)
+                            rule_dimensions, rule_registration, rule_cursor_pair, rule_cursor_copy)
 
 EXPLANATION = (
     "Static analysis of runtime/channel.c (and every other unit for field "
@@ -48,6 +48,7 @@ def run(ctx, res):
     rule_registration(prog, la, res)
     rule_dimensions(prog, res)
     rule_cursor_pair(prog, res, la)
+    rule_cursor_copy(prog, res, la)
     res.require_min("R-CURSOR-PAIR", 3)
     res.require_min("L-PAIR", 10)
     res.require_min("L-GUARDED", 40)
